@@ -590,8 +590,8 @@ Proof.
     inversion Eq; subst. destruct r1 as [|o2 r2].
     + cbn [fold_left mk_step m_tail m_rsp m_func m_ok].
       eexists; split; [reflexivity|]. split; [reflexivity|]. split; [reflexivity|].
-      rewrite Z.mod_small by (clear Hal Ho1; lia).
-      split; [apply aligned_plus; assumption|clear Hal Ho1; lia].
+      rewrite (Z.mod_small (stack - dec - m + off) W64) by (clear Ep Eq Eq1 Hal Ho1; lia).
+      split; [apply aligned_plus; assumption|clear Ep Eq Eq1 Hal Ho1; lia].
     + destruct o2; cbn in Eq1; try discriminate;
         destruct (mk_post r2) as [[a b]|]; discriminate.
   - destruct (mk_post r1) as [[rs' fs']|]; discriminate.
@@ -625,7 +625,7 @@ Proof.
   assert (Hfin : forall t, t = stack - dec - m ->
             (t + off) mod W64 = t + off /\ (t + off) mod 16 = 0 /\ (t + off + 8) mod 16 = 8 /\
             stack - 48 < t + off /\ t + off + 8 <= stack).
-  { intros t Et. split; [apply Z.mod_small; clear Hal Ho1; lia|].
+  { clear Ep Eq. intros t Et. split; [apply Z.mod_small; clear Hal Ho1; lia|].
     assert (Ha : (t + off) mod 16 = 0) by (apply aligned_plus; [subst t|]; assumption).
     split; [exact Ha|]. split; [|clear Hal Ho1 Ha; lia].
     rewrite Z.add_mod by lia. rewrite Ha. reflexivity. }
@@ -643,4 +643,127 @@ Proof.
      [| destruct o3; cbn in Eq2; try discriminate; destruct (mk_post r3) as [[a b]|]; discriminate]);
     cbn [fold_left mk_step m_tail m_rsp m_func m_ok]; rewrite F1; eexists; (split; [reflexivity|]); (split; [reflexivity|]);
     (split; [reflexivity|]); repeat split; assumption.
+Qed.
+
+(* ------------------------------------------------------------------ *)
+(** * corollaries stated for Properties_C03.v *)
+
+Lemma declared_dead_false : forall A r, ~ In r (outs A ++ clobs A) -> declared_dead A r = false.
+Proof.
+  intros A r H; unfold declared_dead.
+  destruct (reg_in r (outs A ++ clobs A)) eqn:E; [|reflexivity].
+  apply reg_in_In in E; contradiction.
+Qed.
+
+(** a register that the asm statement does not declare dead (neither a dummy output nor a
+    clobber) is restored by the code after the label; and every accepted suspending site has the
+    "memory" clobber *)
+Theorem dead_regs_declared : forall lblf cb hi, abi_callee hi cb ->
+  forall A B pa pb depth r0,
+    ctx_check A = true -> ctx_check B = true ->
+    site_parts (code A) = Some pa -> site_parts (code B) = Some pb ->
+    site_summary A = Some (depth, r0) ->
+    clob_mem A = true /\
+    forall s0 s1 sB s2 l rs s3,
+      rg s0 RSP <= hi -> ~ (rg s0 RSP - depth <= rg s0 r0 < hi) ->
+      run (lblf (sid A)) cb (save_code pa) s0 = Next s1 ->
+      (forall a, rg s1 RSP <= a < hi -> mem sB a = mem s1 a) ->
+      mem sB (rg sB (p_load pb)) = rg s1 RSP ->
+      p_cont pa = Some (l, rs) ->
+      run (lblf (sid B)) cb (tail_code pb) sB = Jump (lblf (sid A) l) s2 ->
+      run (lblf (sid A)) cb rs s2 = Next s3 ->
+      forall r, r <> RSP -> ~ In r (outs A ++ clobs A) -> rg s3 r = rg s0 r.
+Proof.
+  intros lblf cb hi Habi A B pa pb depth r0 HA HB HpA HpB Hsum. split.
+  - destruct (ctx_check_swap_inv A pa depth r0 HA HpA Hsum)
+      as [svc [r [l [rs [t1 [t3 H]]]]]]. intuition.
+  - intros s0 s1 sB s2 l rs s3 Hhi Hcell Hrun1 HmB Hload Hct Hrun2 Hrun3 r Hne Hnd.
+    destruct (ctx_check_sound lblf cb hi Habi A B pa pb depth r0 HA HB HpA HpB Hsum s0 Hhi Hcell)
+      as [s1' [Hr1 [_ [_ Hrest]]]].
+    rewrite Hrun1 in Hr1; inversion Hr1; subst s1'; clear Hr1.
+    destruct (Hrest sB HmB Hload) as [s2' [l' [rs' [Hct' [Hr2 [s3' [Hr3 [_ [_ [Hd _]]]]]]]]]].
+    rewrite Hct in Hct'; inversion Hct'; subst l' rs'; clear Hct'.
+    rewrite Hrun2 in Hr2; inversion Hr2; subst s2'; clear Hr2.
+    rewrite Hrun3 in Hr3; inversion Hr3; subst s3'; clear Hr3.
+    apply Hd; [exact Hne|apply declared_dead_false; exact Hnd].
+Qed.
+
+Lemma sub_aligned : forall a d, a mod 16 = 0 -> d mod 16 = 0 -> (a - d) mod 16 = 0.
+Proof.
+  intros a d Ha Hd. rewrite Zminus_mod. rewrite Ha, Hd. reflexivity.
+Qed.
+
+(** if rsp is 16-aligned at the asm statement of the suspending site, every callback that any
+    accepted site calls while resuming that context is called with a 16-aligned rsp *)
+Theorem alignment_resume : forall lblf cb hi, abi_callee hi cb ->
+  forall A B pa pb depth r0,
+    ctx_check A = true -> ctx_check B = true ->
+    site_parts (code A) = Some pa -> site_parts (code B) = Some pb ->
+    site_summary A = Some (depth, r0) ->
+    forall s0 sB,
+      rg s0 RSP mod 16 = 0 ->
+      mem sB (rg sB (p_load pb)) = rg s0 RSP - depth ->
+      Forall (fun x => x mod 16 = 0) (call_rsps (lblf (sid B)) cb (tail_code pb) sB).
+Proof.
+  intros lblf cb hi Habi A B pa pb depth r0 HA HB HpA HpB Hsum s0 sB Hal Hload.
+  destruct (save_keeps_alignment A pa depth r0 HA HpA Hsum) as [H16 _].
+  destruct (tail_calls_at_saved_rsp lblf cb hi Habi B pb sB HB HpB) as [Hc _].
+  cbv zeta in Hc. rewrite Hload in Hc.
+  eapply Forall_impl; [|exact Hc]. intros x Hx; cbn in Hx; subst x.
+  apply sub_aligned; assumption.
+Qed.
+
+(** a fresh context from myth_make_context_empty: the callback a withcall tail calls on it
+    (myth_create_1 in the library) is called with a 16-aligned rsp *)
+Theorem alignment_fresh_empty : forall lblf cb hi, abi_callee hi cb ->
+  forall ops stack B pb sB sp,
+    mk_check_empty ops = true -> 64 <= stack < W64 ->
+    m_rsp (mk_run ops stack) = Some sp ->
+    ctx_check B = true -> site_parts (code B) = Some pb ->
+    mem sB (rg sB (p_load pb)) = sp ->
+    sp mod 16 = 0 /\ stack - 48 < sp <= stack /\
+    Forall (fun x => x mod 16 = 0) (call_rsps (lblf (sid B)) cb (tail_code pb) sB).
+Proof.
+  intros lblf cb hi Habi ops stack B pb sB sp Hck Hst Hsp HB HpB Hload.
+  destruct (mk_empty_aligned ops stack Hck Hst) as [sp' [E [_ [_ [Hal Hb]]]]].
+  rewrite Hsp in E; inversion E; subst sp'; clear E.
+  split; [exact Hal|]. split; [exact Hb|].
+  destruct (tail_calls_at_saved_rsp lblf cb hi Habi B pb sB HB HpB) as [Hc _].
+  cbv zeta in Hc. rewrite Hload in Hc.
+  eapply Forall_impl; [|exact Hc]. intros x Hx; cbn in Hx; subst x. exact Hal.
+Qed.
+
+(** a fresh context from myth_make_context_voidcall: any accepted tail calls its callbacks with
+    a 16-aligned rsp and then enters the function stored in the context with rsp = 8 modulo 16,
+    as immediately after a call instruction *)
+Theorem alignment_fresh_voidcall : forall lblf cb hi, abi_callee hi cb ->
+  forall ops stack B pb sB sp func,
+    mk_check_voidcall ops = true -> 64 <= stack < W64 -> stack <= hi ->
+    m_rsp (mk_run ops stack) = Some sp ->
+    ctx_check B = true -> site_parts (code B) = Some pb ->
+    mem sB (rg sB (p_load pb)) = sp ->
+    (forall fa, m_func (mk_run ops stack) = Some fa -> mem sB fa = func) ->
+    Forall (fun x => x mod 16 = 0) (call_rsps (lblf (sid B)) cb (tail_code pb) sB) /\
+    exists s2, run (lblf (sid B)) cb (tail_code pb) sB = Jump func s2 /\
+               rg s2 RSP mod 16 = 8 /\ rg s2 RSP <= stack.
+Proof.
+  intros lblf cb hi Habi ops stack B pb sB sp func Hck Hst Hhi Hsp HB HpB Hload Hfunc.
+  destruct (mk_voidcall_aligned ops stack Hck Hst) as [sp' [E [Ef [_ [Hal [Hal8 [Hb1 Hb2]]]]]]].
+  rewrite Hsp in E; inversion E; subst sp'; clear E.
+  destruct (tail_calls_at_saved_rsp lblf cb hi Habi B pb sB HB HpB) as [Hc [s2 [v [Hrun [Hsp2 Hv]]]]].
+  cbv zeta in Hc, Hsp2, Hv. rewrite Hload in Hc, Hsp2, Hv. split.
+  - eapply Forall_impl; [|exact Hc]. intros x Hx; cbn in Hx; subst x. exact Hal.
+  - exists s2. rewrite Hv in Hrun by lia. rewrite (Hfunc sp Ef) in Hrun.
+    split; [exact Hrun|]. rewrite Hsp2. split; [exact Hal8|lia].
+Qed.
+
+(** the adversarial callback of the diagnosis run obeys the ABI hypothesis (so the hypothesis
+    is satisfiable by a callback that clobbers every caller-saved register and scribbles below rsp) *)
+Lemma d_cb_abi : forall hi, abi_callee hi d_cb.
+Proof.
+  intros hi f s. split; [reflexivity|]. split.
+  - intros r Hr; cbn in Hr.
+    destruct Hr as [E|[E|[E|[E|[E|[E|[]]]]]]]; subst r; reflexivity.
+  - intros a Ha. cbn. destruct (a <? rg s RSP) eqn:E; [|reflexivity].
+    apply Z.ltb_lt in E; lia.
 Qed.
